@@ -171,6 +171,7 @@ type hop struct {
 	Content []byte  `json:"-"`
 	What    string  `json:"what,omitempty"` // corruption kind
 	WaitMs  int64   `json:"wait_until_ms,omitempty"`
+	Inst    int     `json:"instance,omitempty"` // which FileCache object on the same root makes the call
 	Res     string  `json:"result,omitempty"`
 	resTerm func(S func(string) string) string
 	tMs     int64
@@ -274,9 +275,14 @@ func (e *env) execute(id int64, sb string, hc *hcase) string {
 	os.WriteFile(filepath.Join(caseDir, "a", "evil"), decoy, 0o644)
 	os.WriteFile(filepath.Join(caseDir, "evil2"), decoy, 0o644)
 	os.WriteFile(filepath.Join(caseDir, "a", "cache.txt"), decoy, 0o644)
-	cache, err := crl.NewFileCache(root)
-	if err != nil {
-		panic(err)
+	// two long-lived FileCache objects on the same root (two processes sharing the cache)
+	var caches [2]*crl.FileCache
+	for k := range caches {
+		c, err := crl.NewFileCache(root)
+		if err != nil {
+			panic(err)
+		}
+		caches[k] = c
 	}
 	before := snapshot(caseDir, root)
 	rec := &recorder{caseDir: caseDir, root: root, tempsOK: true}
@@ -318,7 +324,7 @@ func (e *env) execute(id int64, sb string, hc *hcase) string {
 			}
 			hookMu.Lock()
 			hookCur = rec
-			err := cache.Set(ctx, o.U, b)
+			err := caches[o.Inst&1].Set(ctx, o.U, b)
 			hookCur = nil
 			hookMu.Unlock()
 			switch {
@@ -346,7 +352,7 @@ func (e *env) execute(id int64, sb string, hc *hcase) string {
 			var t0, t1 time.Time
 			for try := 0; try < 50; try++ {
 				t0 = time.Now()
-				bundle, gerr = cache.Get(ctx, o.U)
+				bundle, gerr = caches[o.Inst&1].Get(ctx, o.U)
 				t1 = time.Now()
 				amb := false
 				for _, nu := range e.nus {
@@ -629,7 +635,7 @@ func (e *env) label(b []byte) string {
 func runC15(a *Args) error {
 	rng := NewRng(a.Seed)
 	w := NewCaseWriter(a, "C15", "", "case", "run")
-	w.Rule = "histories of FileCache.Set / Get and environment operations (corrupt, remove, directory in the way) on a fresh cache directory, run on the real verifier/crl.FileCache; families: expiry matrix (base x delta in fresh / expired / zero NextUpdate / not a CRL / nil), isolation scripts over all pairs of near-identical urls, hostile urls (traversal, empty, the file name of another url, 5 kB) with decoy entries planted outside the root, ~70 kinds of corruption of a stored entry (truncation at every length class, bit flips, swapped fields, foreign JSON, wrong types, bad base64, damaged DER), nil bundles and directories in the way, random histories of 3..12 operations followed by a sweep of Gets, and entries that expire while the history runs (real clock). non-trivial = some Get addresses a url that was stored or corrupted earlier in the history, or the history touches a hostile url; distinct = distinct (family, urls, operations, CRL kinds, corruption, results) sequences"
+	w.Rule = "histories of FileCache.Set / Get and environment operations (corrupt, remove, directory in the way) on a fresh cache directory, run on the real verifier/crl.FileCache; families: expiry matrix (base x delta in fresh / expired / zero NextUpdate / not a CRL / nil), isolation scripts over all pairs of near-identical urls, hostile urls (traversal, empty, the file name of another url, 5 kB) with decoy entries planted outside the root, ~70 kinds of corruption of a stored entry (truncation at every length class, bit flips, swapped fields, foreign JSON, wrong types, bad base64, damaged DER), duplicate JSON members with the odd one first / middle / last and rarely used legal JSON syntax (escaped keys and characters, case-folded keys, CR LF inside base64, pretty printing), nil bundles and directories in the way, overwrite of every ordered pair of stored bundles (same length, older/newer, with/without delta), scripts on ONE long-lived FileCache object and on TWO objects sharing the root whose expected answer changes between calls (A then B, miss then hit, hit then miss, fail then pass), random histories (half of them spread over the two objects) of 3..12 operations followed by a sweep of Gets, and entries that expire while the history runs (real clock). non-trivial = some Get addresses a url that was stored or corrupted earlier in the history, or the history touches a hostile url; distinct = distinct (family, urls, operations, CRL kinds, corruption, results) sequences"
 	w.Assumptions = []string{
 		"crypto/sha256 has no collision among the urls of a history (checked per case inside Coq: wf)",
 		"encoding/json + encoding/base64 decode what they encoded (checked per Set inside Coq: wf); x509.ParseRevocationList is an oracle giving (Raw, NextUpdate) | error for every byte string met (it ignores bytes after the first DER element, so Raw may be a proper prefix of a stored part)",
@@ -673,10 +679,15 @@ func runC15(a *Args) error {
 	add(e.mint("E2", "E", e.t0.Add(-2*time.Second), false, 0))
 	add(e.mint("ED1", "E", e.t0.Add(-24*h), true, 0))
 	add(e.mint("ED2", "E", e.t0.Add(-3*time.Second), true, 1))
+	// larger than one 4 KiB buffer once stored (150 revoked certificates)
+	add(e.mint("B1", "F", e.t0.Add(48*h), false, 150))
+	add(e.mint("BD1", "F", e.t0.Add(48*h), true, 150))
 	add(e.mint("Z1", "Z", time.Time{}, false, 0))
 	add(e.mint("ZD1", "Z", time.Time{}, true, 0))
 	add(&crlObj{Label: "W1", Kind: "W", Raw: []byte("this is not a CRL"), RL: &x509.RevocationList{Raw: []byte("this is not a CRL")}})
 	add(&crlObj{Label: "N1", Kind: "N", Raw: nil, RL: &x509.RevocationList{}})
+	// an empty but non-nil Raw (only ever used as a delta: omitempty drops it like a nil one)
+	add(&crlObj{Label: "N2", Kind: "N", Raw: []byte{}, RL: &x509.RevocationList{Raw: []byte{}}})
 	// a valid DER with one trailing byte: refused by the parser
 	add(&crlObj{Label: "W2", Kind: "W", Raw: append(append([]byte{}, e.crls["F1"].Raw...), 0), RL: &x509.RevocationList{Raw: append(append([]byte{}, e.crls["F1"].Raw...), 0)}})
 
@@ -687,7 +698,13 @@ func runC15(a *Args) error {
 		"http://crl.example.com/a%2Fb.crl", "http://crl.example.com/a/b.crl", "http://crl.example.com/a%2fb.crl",
 		u0 + "?", u0 + "#", "http://crl.example.com:80/ca.crl", "https://crl.example.com/ca.crl", u0 + "\x00", u0 + "\n",
 		"http://crl.example.com/c\u00e4.crl", "http://crl.example.com/ca\u0308.crl", "http://crl.example.com/ca.cr",
-		"http://crl.example.com/ca.crll", "http://crl.example.com./ca.crl", "http://crl.example.com/ca.crl%00"}
+		"http://crl.example.com/ca.crll", "http://crl.example.com./ca.crl", "http://crl.example.com/ca.crl%00",
+		// rarely used but legal url syntax, and byte strings that are no urls at all
+		"http://user:p@ss@crl.example.com/ca.crl", "http://@crl.example.com/ca.crl", "http://[::1]/ca.crl", "http://[0:0:0:0:0:0:0:1]/ca.crl",
+		"ldap://crl.example.com/cn=ca?certificateRevocationList;binary", "//crl.example.com/ca.crl", "crl.example.com/ca.crl",
+		"http://crl.example.com/ca.crl;v=1", "http://crl.example.com/./ca.crl", "http://crl.example.com/x/../ca.crl",
+		"http://crl.example.com/ca.crl\xff", "http://crl.example.com/ca.crl\xfe", "http://crl.example.com/ca.crl\t", "http://crl.example.com/ca.crl\r\n",
+		"http://crl.example.com/ca.crl?a=1&b=2", "http://crl.example.com/ca.crl?b=2&a=1", "http://crl.example.com/ca.crl#frag", "http://crl.example.com/%63a.crl"}
 	hostile := []string{"../evil", "../../evil2", "..", ".", "", "/", "a/../../evil", "../cache/" + keyOf(u0), keyOf(u0),
 		"./" + keyOf(u0), "x/../" + keyOf(u0), strings.ToUpper(keyOf(u0)), keyOf(u0)[:63], "..\\evil", "%2e%2e/evil", "notation-123456", "../evil\x00",
 		strings.Repeat("../", 40) + "evil2", "../cache.txt", "../cache", "cache", "../../a/cache/" + keyOf(u0)}
